@@ -429,7 +429,17 @@ func (x *xf) loc(se *ast.SelectorExpr) string {
 	if n, ok := t.(*types.Named); ok {
 		name = n.Obj().Name()
 	}
+	if _, ok := sel.Obj().Type().Underlying().(*types.Map); ok {
+		return name + "." + sel.Obj().Name() + "#map"
+	}
 	return name + "." + sel.Obj().Name()
+}
+
+func mapMark(t types.Type) string {
+	if _, ok := t.Underlying().(*types.Map); ok {
+		return "#map"
+	}
+	return ""
 }
 
 func (x *xf) addressable(e ast.Expr) bool {
@@ -502,7 +512,7 @@ func (x *xf) starWrites(e ast.Expr) []ast.Stmt {
 			continue
 		}
 		se := &ast.SelectorExpr{X: ast.NewIdent(id.Name), Sel: ast.NewIdent(f.Name())}
-		out = append(out, &ast.ExprStmt{X: &ast.CallExpr{Fun: &ast.SelectorExpr{X: ast.NewIdent("vrt"), Sel: ast.NewIdent("W")}, Args: []ast.Expr{&ast.UnaryExpr{Op: token.AND, X: se}, x.site(n.Obj().Name() + "." + f.Name())}}})
+		out = append(out, &ast.ExprStmt{X: &ast.CallExpr{Fun: &ast.SelectorExpr{X: ast.NewIdent("vrt"), Sel: ast.NewIdent("W")}, Args: []ast.Expr{&ast.UnaryExpr{Op: token.AND, X: se}, x.site(n.Obj().Name() + "." + f.Name() + mapMark(f.Type()))}}})
 	}
 	return out
 }
